@@ -62,3 +62,30 @@ def mul_by_named_constant(names_regex, fn_name="MUL"):
             n += 1
         return body, n
     return rule
+
+HU = "hll/include/HllUtil.hpp"
+HLL_CONSTS = [{"file": HU, "prefix": "hll_constants_",
+               "pattern": r"static const (?P<type>uint8_t|uint32_t) (?P<name>[A-Za-z_0-9]+) = (?P<value>[^;{]+);", "min_count": 25}]
+HLL_STRUCT = r'''
+enum { HLL_4 = 0, HLL_6 = 1, HLL_8 = 2 };
+enum { LIST = 0, SET = 1, HLL = 2 };
+struct auxmap;
+struct hllarr { uint8_t lgConfigK_; uint8_t tgtHllType_; uint8_t mode_; bool startFullSize_;
+                double hipAccum_; double kxq0_; double kxq1_; uint8_t* hllByteArr_; uint32_t hllByteArr_size;
+                uint8_t curMin_; uint32_t numAtCurMin_; bool oooFlag_; bool rebuild_kxq_curmin_; struct auxmap* auxHashMap_; };
+'''
+HLL_MEMBERS = ["lgConfigK_", "tgtHllType_", "mode_", "startFullSize_", "hipAccum_", "kxq0_", "kxq1_", "hllByteArr_", "curMin_", "numAtCurMin_",
+               "oooFlag_", "rebuild_kxq_curmin_", "auxHashMap_"]
+
+# shared contract texts (the same text is enforced in one unit and used for replacement in others)
+HLL4_GET_CONTRACT = r'''
+__CPROVER_requires(slotNo < ((uint32_t)1 << self->lgConfigK_) && __CPROVER_r_ok(self->hllByteArr_, (uint32_t)1 << (self->lgConfigK_ - 1)))
+__CPROVER_assigns()
+__CPROVER_ensures(__CPROVER_return_value == ((slotNo & 1) ? (self->hllByteArr_[slotNo >> 1] >> 4) : (self->hllByteArr_[slotNo >> 1] & 0xf)))
+'''
+HLL4_PUT_CONTRACT = r'''
+__CPROVER_requires(slotNo < ((uint32_t)1 << self->lgConfigK_) && __CPROVER_rw_ok(self->hllByteArr_, (uint32_t)1 << (self->lgConfigK_ - 1)))
+__CPROVER_assigns(self->hllByteArr_[slotNo >> 1])
+__CPROVER_ensures(self->hllByteArr_[slotNo >> 1] == ((slotNo & 1) ? (uint8_t)((__CPROVER_old(self->hllByteArr_[slotNo >> 1]) & 0x0f) | ((newValue & 0xf) << 4))
+                                                                  : (uint8_t)((__CPROVER_old(self->hllByteArr_[slotNo >> 1]) & 0xf0) | (newValue & 0xf))))
+'''
